@@ -110,6 +110,7 @@ def gen_cases(ctx, n, with_queries=True, opt_filter=None, pool=None):
     for k in ('cases', 'unstable_skipped', 'impl_errors', 'heavy_atoms_hist', 'branches', 'levels_reached_hist'):
         stats.setdefault(k, {} if k.endswith('hist') or k == 'branches' else 0)
     tries = 0
+    skipped0 = stats['unstable_skipped']
     src = pool or molgen.pool(rng, n * 2)
     for (name, m0, cid) in src:
         if len(out) >= n:
@@ -141,6 +142,12 @@ def gen_cases(ctx, n, with_queries=True, opt_filter=None, pool=None):
         for b, v in c.branch.items():
             stats['branches'][b] = stats['branches'].get(b, 0) + v
         out.append(c)
+    # a floor on what must remain after the near-threshold inputs are dropped: a stream that skips most of what it was asked to
+    # compare decides nothing (the skip is decided from the INPUT by m1_spec, but its volume is bounded here)
+    tried = len(out) + (stats['unstable_skipped'] - skipped0)
+    if tried >= 8 and len(out) < 0.4 * min(n, tried):
+        ctx.fail('M1 case stream: only %d of %d candidate inputs remained after %d were tagged near-threshold (requested %d)' % (len(out), tried, tried - len(out), n),
+                 {'requested': n, 'candidates_tried': tried, 'kept': len(out)}, no_input=True, kind='harness-error')
     return out
 
 
